@@ -20,9 +20,29 @@ def make_prog():
     prog = pyvc.make_program()
     install_handler_model(prog.models)
     from contracts import timer, session, open_send
+    session.CONF_REF[0] = prog.models.conf
     for c in timer.CONTRACTS:
         prog.contracts[c.qual] = c
     for q, sp in session.HELPER_SPECS.items():
         prog.contracts[q] = Contract(q, sp)
     prog.contracts[session.BGP + 'send_open'] = Contract(session.BGP + 'send_open', timer.wrap(open_send.p_send_open))
+    from contracts import protocol_rx as RX
+    for q, sp in RX.HELPER_SPECS.items():
+        prog.contracts[q] = Contract(q, sp)
+    # FSM events and receive handlers are used through their contracts by their callers
+    for name, sp in session.FSM_EVENT_SPECS.items():
+        prog.contracts[session.FSM + name] = Contract(session.FSM + name, sp)
+    for name, sp in RX.RX_SPECS.items():
+        if name != 'parse_buffer':
+            prog.contracts[session.BGP + name] = Contract(session.BGP + name, sp, mark=True)
+    prog.contracts[session.BGP + 'parse_buffer'] = Contract(session.BGP + 'parse_buffer', RX.RX_SPECS['parse_buffer'])
+    for q, sp in RX.ASSUMED_SPECS.items():
+        prog.contracts[q] = Contract(q, sp, assumed=True)
+    # ASSUMED abstract contracts at the session layer (owned and verified in full by C14 / C11+C09)
+    prog.contracts['yabgp.message.open.Open.parse'] = Contract(
+        'yabgp.message.open.Open.parse', timer.wrap(RX.p_open_parse_abs), assumed=True)
+    prog.contracts['yabgp.message.update.Update.parse'] = Contract(
+        'yabgp.message.update.Update.parse',
+        timer.wrap(lambda s, cls, t, msg_hex, asn4=False, afi_add_path=None: RX.p_update_parse_abs(s, msg_hex)),
+        assumed=True)
     return prog
